@@ -44,7 +44,10 @@ func (g *gen) translate(fo *types.Func) (*fnInfo, error) {
 	p := g.declPkg[fo]
 	sc := g.scanFunc(fo)
 	sig := fo.Type().(*types.Signature)
-	inf := &fnInfo{name: coqName(fo), res: sc.res, world: sc.world, mutRecv: sc.mutRecv}
+	if sc.bad != "" {
+		return nil, g.errf(fd, "%s", sc.bad)
+	}
+	inf := &fnInfo{name: coqName(fo), res: sc.res, world: sc.world, mutRecv: sc.mutRecv, mutPar: sc.mutList()}
 	f := &fn{g: g, p: p, info: p.TypesInfo, inf: inf, env: map[types.Object]*binding{}, names: map[string]int{},
 		pure: !sc.res && !sc.world, sig: sig, body: fd.Body, assignCount: map[types.Object]int{}}
 	if sc.world && !sc.res {
@@ -104,6 +107,13 @@ func (g *gen) translate(fo *types.Func) (*fnInfo, error) {
 	if inf.mutRecv {
 		resT = append(resT, f.env[inf.recv].t.coq())
 	}
+	for _, i := range inf.mutPar {
+		b := f.env[inf.params[i]]
+		if b == nil || b.tok {
+			return nil, g.errf(fd, "parameter %s is written through but has no value in the model", inf.params[i].Name())
+		}
+		resT = append(resT, b.t.coq())
+	}
 	if inf.world {
 		params = append(params, "(w : World)")
 		resT = append(resT, "World")
@@ -131,6 +141,9 @@ func (g *gen) translate(fo *types.Func) (*fnInfo, error) {
 	def := fmt.Sprintf("(* %s: func %s *)\nDefinition %s %s : %s :=\n%s.", g.pos(fd), strings.TrimPrefix(inf.name, "gen_"),
 		inf.name, strings.Join(params, " "), retT, indent(body, "  "))
 	g.out = append(g.out, def)
+	if !g.isTarget[fo] {
+		g.helpers = append(g.helpers, inf.name)
+	}
 	if len(f.setup) > 0 {
 		var ss []string
 		for _, s := range f.setup {
@@ -147,14 +160,20 @@ func (g *gen) translate(fo *types.Func) (*fnInfo, error) {
 }
 
 // Targets: the functions the tie is claimed for (callees are translated on demand)
-var targets = []struct{ pkg, recv, name string }{
-	{"/sdf", "Triangle3", "Normal"},
-	{"/render", "", "parseFloats"}, {"/render", "", "loadSTLAscii"}, {"/render", "", "loadSTLBinary"}, {"/render", "", "LoadSTL"},
-	{"/render", "", "SaveSTL"}, {"/render", "", "writeSTL"},
-	{"/render", "", "toPoint3D"}, {"/render", "", "write3MF"},
-	{"/render", "", "NewDXF"}, {"/render", "DXF", "Line"}, {"/render", "DXF", "Lines"}, {"/render", "DXF", "Points"},
-	{"/render", "DXF", "Triangle"}, {"/render", "DXF", "Box"}, {"/render", "DXF", "Save"}, {"/render", "", "SaveDXF"}, {"/render", "", "writeDXF"},
-	{"/render", "", "NewSVG"}, {"/render", "SVG", "Line"}, {"/render", "SVG", "Save"}, {"/render", "", "SaveSVG"}, {"/render", "", "writeSVG"},
+// res: translated as a `res` (value + error, or panic) whatever its body looks like today, so
+// that the type of the generated definition does not depend on whether the current spelling
+// happens to contain a loop or a slice index (functions with an error result always are)
+var targets = []struct {
+	pkg, recv, name string
+	res             bool
+}{
+	{"/sdf", "Triangle3", "Normal", false},
+	{"/render", "", "parseFloats", true}, {"/render", "", "loadSTLAscii", true}, {"/render", "", "loadSTLBinary", true}, {"/render", "", "LoadSTL", true},
+	{"/render", "", "SaveSTL", true}, {"/render", "", "writeSTL", true},
+	{"/render", "", "toPoint3D", false}, {"/render", "", "write3MF", true},
+	{"/render", "", "NewDXF", false}, {"/render", "DXF", "Line", false}, {"/render", "DXF", "Lines", true}, {"/render", "DXF", "Points", true},
+	{"/render", "DXF", "Triangle", true}, {"/render", "DXF", "Box", true}, {"/render", "DXF", "Save", true}, {"/render", "", "SaveDXF", true}, {"/render", "", "writeDXF", true},
+	{"/render", "", "NewSVG", false}, {"/render", "SVG", "Line", false}, {"/render", "SVG", "Save", true}, {"/render", "", "SaveSVG", true}, {"/render", "", "writeSVG", true},
 }
 
 func (g *gen) findFunc(pkg, recv, name string) *types.Func {
@@ -184,11 +203,20 @@ func (g *gen) generate() ([]byte, error) {
 		return nil, err
 	}
 	var names []string
+	g.isTarget = map[*types.Func]bool{}
+	g.forceRes = map[*types.Func]bool{}
 	for _, t := range targets {
 		fo := g.findFunc(t.pkg, t.recv, t.name)
 		if fo == nil {
 			return nil, fmt.Errorf("target %s %s.%s not found in the source tree", t.pkg, t.recv, t.name)
 		}
+		g.isTarget[fo] = true
+		if t.res {
+			g.forceRes[fo] = true
+		}
+	}
+	for _, t := range targets {
+		fo := g.findFunc(t.pkg, t.recv, t.name)
 		inf, err := g.translate(fo)
 		if err != nil {
 			return nil, err
@@ -236,7 +264,14 @@ Local Open Scope list_scope.
 		}
 		b.WriteString("\n")
 	}
-	b.WriteString("End IoExpr.\n\n(* translated: " + strings.Join(names, " ") + " *)\n")
+	b.WriteString("End IoExpr.\n\n")
+	// functions the targets call that are not targets themselves (vector methods, helpers a
+	// refactoring extracts): the equality proofs unfold them wherever they occur
+	b.WriteString("Create HintDb iogen_helpers.\n")
+	if len(g.helpers) > 0 {
+		b.WriteString("#[global] Hint Unfold " + strings.Join(g.helpers, " ") + " : iogen_helpers.\n")
+	}
+	b.WriteString("\n(* translated: " + strings.Join(names, " ") + " *)\n")
 	return []byte(b.String()), nil
 }
 
